@@ -229,20 +229,66 @@ package mkvs
 //@ ghost var GPfxSeeks int
 
 //@ func cache.useNode
-//@   trusted
+//@   props C03 C04 C02
+//@   modifies nothing
 //@   ensures ptr.Node == old(ptr.Node) && ptr.Clean == old(ptr.Clean) && ptr.Hash == old(ptr.Hash)
 //@   note LRU bookkeeping only (container/list): the pointer's node, clean flag and hash are not touched
 
 //@ func cache.commitNode
-//@   trusted
+//@   props C03 C04 C02
 //@   ensures ptr.Node == old(ptr.Node) && ptr.Clean == old(ptr.Clean) && ptr.Hash == old(ptr.Hash)
 //@   note makes room by evicting OTHER nodes and links this pointer into the LRU list; the pointer itself keeps its node
 
+//@ ghost type PtrT = *node.Pointer
+
+//@ ghost type InT = *node.InternalNode
+//@ ghost func Below(m *node.InternalNode, p *node.Pointer) bool { return ufb("nodeBelow", m, p) }
+// Below(m, p): internal node m is the node of pointer p or hangs below it (uninterpreted; the heap is a tree).
+
+//@ func cache.tryRemoveNode
+//@   props C03 C04 C02
+//@   assumes typeIs[*node.InternalNode](ptr.Node) ==> !Below(ptr.Node.(*node.InternalNode), ptr.Node.(*node.InternalNode).LeafNode) && !Below(ptr.Node.(*node.InternalNode), ptr.Node.(*node.InternalNode).Left) && !Below(ptr.Node.(*node.InternalNode), ptr.Node.(*node.InternalNode).Right)
+//@   ensures-trusted forall m InT :: !Below(m, ptr) ==> m.LeafNode == old(m.LeafNode) && m.Left == old(m.Left) && m.Right == old(m.Right)
+//@   note assumed (listed in the evidence): the in-memory nodes form a tree (a node does not hang below one of its own parts), and the recursive removal writes the parts only of nodes at or below the pointer it is given
+//@   ensures forall p PtrT :: p.Clean == old(p.Clean) && p.Hash == old(p.Hash)
+//@   ensures forall p PtrT :: old(p.LRU == nil) ==> p.Node == old(p.Node) && p.LRU == nil
+//@   ensures err != nil && old(typeIs[*node.InternalNode](ptr.Node)) ==> old(ptr.Node).(*node.InternalNode).LeafNode == old(ptr.Node.(*node.InternalNode).LeafNode) && old(ptr.Node).(*node.InternalNode).Left == old(ptr.Node.(*node.InternalNode).Left) && old(ptr.Node).(*node.InternalNode).Right == old(ptr.Node.(*node.InternalNode).Right)
+//@   note (C03, C04) a removal that is abandoned (a part below the node is the locked pointer) leaves the node as it was: the node stays in the cache, so every part it had must still hang on it - a detached part reads as an EMPTY subtree. FAILS on the pinned tree: known finding F16
+//@   note evicts the node and (recursively) what hangs below it from the LRU lists: the dirty flag and hash of EVERY pointer are left alone, and a pointer that is not in an eviction list (a dirty or new node) keeps its node
+
+//@ func cache.tryEvictLeaf
+//@   props C03 C04 C02
+//@   loop 1 invariant forall p PtrT :: p.Clean == old(p.Clean) && p.Hash == old(p.Hash)
+//@   loop 1 invariant forall p PtrT :: old(p.LRU == nil) ==> p.Node == old(p.Node) && p.LRU == nil
+//@   ensures forall p PtrT :: p.Clean == old(p.Clean) && p.Hash == old(p.Hash)
+//@   ensures forall p PtrT :: old(p.LRU == nil) ==> p.Node == old(p.Node) && p.LRU == nil
+//@   note eviction touches no pointer's dirty flag or hash and leaves every pointer outside the eviction lists (dirty and new nodes) alone
+
+//@ func cache.tryEvictInternal
+//@   props C03 C04 C02
+//@   loop 1 invariant forall p PtrT :: p.Clean == old(p.Clean) && p.Hash == old(p.Hash)
+//@   loop 1 invariant forall p PtrT :: old(p.LRU == nil) ==> p.Node == old(p.Node) && p.LRU == nil
+//@   ensures forall p PtrT :: p.Clean == old(p.Clean) && p.Hash == old(p.Hash)
+//@   ensures forall p PtrT :: old(p.LRU == nil) ==> p.Node == old(p.Node) && p.LRU == nil
+//@   note eviction touches no pointer's dirty flag or hash and leaves every pointer outside the eviction lists (dirty and new nodes) alone
+
+//@ func cache.tryCommitNode
+//@   props C03 C04 C02
+//@   ensures forall p PtrT :: p.Clean == old(p.Clean) && p.Hash == old(p.Hash)
+//@   ensures forall p PtrT :: old(p.LRU == nil) ==> p.Node == old(p.Node)
+//@   ensures ptr.Node == old(ptr.Node)
+//@   note makes room by evicting OTHER nodes and links this pointer into the LRU list; the pointer itself keeps its node
+
 //@ func cache.removeNode
-//@   trusted
+//@   props C03 C04 C02
 //@   ensures ptr.Clean == old(ptr.Clean) && ptr.Hash == old(ptr.Hash)
 //@   ensures old(ptr.LRU == nil) ==> ptr.Node == old(ptr.Node)
 //@   note a pointer that is not in the LRU list (a dirty or new node) is left alone (first statement of tryRemoveNode)
+
+//@ func cache.rollbackNode
+//@   props C02 C03
+//@   ensures ptr.Node == old(ptr.Node) && ptr.Clean == old(ptr.Clean) && ptr.Hash == old(ptr.Hash)
+//@   note LRU bookkeeping only: the pointer leaves the eviction list and keeps its node, dirty flag and hash
 
 //@ func cache.derefNodePtr
 //@   props C04 C03
@@ -309,6 +355,8 @@ package mkvs
 //@   assume-pre (node\.Key\.(AppendBit|GetBit|BitLength|Merge)|mkvs\.cache\.derefNodePtr)$
 //@   precall mkvs\.cache\)\.removeNode$ :: defined(remainingLeft) ==> argIs(0, ptr) && ite(remainingLeaf != nil, 1, 0) + ite(remainingLeft != nil, 1, 0) + ite(remainingRight != nil, 1, 0) <= 1
 //@   ensures-local err == nil && defined(remainingLeft) && !defined(ndLeaf) && !defined(nodePtr) ==> ite(remainingLeaf != nil, 1, 0) + ite(remainingLeft != nil, 1, 0) + ite(remainingRight != nil, 1, 0) >= 2
+//@   ensures-local err == nil && defined(changed) && changed && !defined(ndLeaf) && !defined(nodePtr) && result0 == ptr ==> !ptr.Clean
+//@   note (C02) an internal node that stays in the tree after a removal below it (or of its own attached leaf) has its pointer marked dirty, so that the next commit recomputes its hash: a removal that leaves the pointer clean keeps the stale hash - the root no longer reflects the contents (seed C02_a returned early for a node that lost its attached leaf but kept both subtrees)
 //@   note ... and conversely an internal node that STAYS in the tree (the path through neither collapse branch) has at least two parts left: no internal node with a single part - which would give the same key set a different shape, hence a different root hash - survives a removal (C02, local)
 //@   note an internal node is taken out of the tree (replaced by its attached leaf or by its only child) only when at most ONE of its three parts - the attached leaf (the key that is a prefix of the subtree's keys), the left and the right subtree - is still there after the removal below it: nothing that still holds keys is dropped together with the node (seed C03_g collapsed a node with a leaf and a RIGHT subtree into the leaf). The parts are what derefNodePtr returns (see F10 for when that is wrong)
 
